@@ -452,6 +452,9 @@ func c02Enumerate(tier string, emit func(core.Case)) {
 	for _, src := range []string{
 		`<svg><style>.a &gt; .b{} &amp; c</style></svg>`, `<svg><script>if (a &lt; b) x</script></svg>`, `<math><style>a &lt; b</style></math>`, `<svg><style>p{}</style><g><style>q &gt; r</style><circle r="1"></circle></g></svg>`,
 		`<svg><use xlink:href="#a"></use></svg>`, `<svg xml:lang="en" viewBox="0 0 1 1"><a xlink:href="/x" xlink:title="t &amp; u">k</a></svg>`,
+		// a plain and a namespaced attribute of the same local name on one foreign element
+		`<svg><use href="#i" xlink:href="#j"></use></svg>`, `<svg><use xlink:href="#j" href="#i"></use></svg>`, `<svg lang="de" xml:lang="en"><a title="t" xlink:title="u" xlink:show="new" show="s">k</a></svg>`,
+		`<math><mi href="a" xlink:href="b" xml:space="preserve" space="x">x</mi></math>`, `<svg><image xlink:href="a" href="b2" xml:base="/b" base="c"></image></svg>`, `<p lang="de" xml:lang="en">html</p>`,
 		`<html-view>x</html-view><p>y</p>`, `<htmlx a="b">k</htmlx>`,
 		`<noscript><img src="x"></noscript>`, `<div><noscript><p>a &amp; b</p><a href="/nojs?a=1&amp;b=2">l</a></noscript></div>`, `<noscript>plain &lt;text&gt;</noscript>`,
 		`<pre><script>if (a<b) x</script></pre>`, `<pre><style>p > q {}</style></pre>`, `<div><pre>a <script>var s = "<b>";</script> b</pre></div>`,
